@@ -1137,15 +1137,15 @@ Section PolarAll.
   Qed.
 
   (* std_polar: xy2rp (contract 1) then, if the code saw r < 0, (|r|, p + pi) (contract 2) *)
-  Theorem std_polar_preserves_value s n o fl zn :
+  Lemma std_polar_mid_preserves_value s n o fl zn :
     flags_consistent s -> groups_closed s -> cvalue cv s n = Some zn ->
     (forall a b, read s (nr n) = Some a -> read s (ni n) = Some b -> cv true (fst o) (snd o) = cv false a b) ->
     (forall r' p' a b, fl = Some (r', p') ->
        read (conv true n o s) (nr n) = Some a -> read (conv true n o s) (ni n) = Some b ->
        cv true r' p' = cv true a b) ->
-    forall m z, cvalue cv s m = Some z -> cvalue cv (std_polar n o fl s) m = Some z.
+    forall m z, cvalue cv s m = Some z -> cvalue cv (std_polar_mid n o fl s) m = Some z.
   Proof.
-    intros FC GC Hn H1 H2 m z Hm. unfold std_polar.
+    intros FC GC Hn H1 H2 m z Hm. unfold std_polar_mid.
     assert (P1 : forall k zk, cvalue cv s k = Some zk -> cvalue cv (conv true n o s) k = Some zk)
       by (intros k zk; eapply polar_switch_preserves_value; eauto).
     destruct fl as [[r' p']|]; [|apply P1; exact Hm].
@@ -1158,6 +1158,57 @@ Section PolarAll.
       - destruct (conv_effect s true n o f Ef Eft) as (_ & _ & Hc). rewrite Hc, seqb_refl.
         destruct (smem n (group_of n s)); reflexivity. }
     eapply rewrite_preserves_value; eauto.
+  Qed.
+
+  (* writes keep the state conditions (they only mention variables, flags and groups) *)
+  Lemma flags_consistent_ext s s' :
+    vars s' = vars s -> cplx s' = cplx s -> same s' = same s -> flags_consistent s -> flags_consistent s'.
+  Proof. unfold flags_consistent, group_of. intros -> -> -> H. exact H. Qed.
+  Lemma write_ext n v s :
+    vars (write n v s) = vars s /\ cplx (write n v s) = cplx s /\ same (write n v s) = same s.
+  Proof. unfold write. destruct (dget n (vars s)); repeat split. Qed.
+  Lemma conv_flag_true s n o f : dget n (cplx s) = Some f -> dget n (cplx (conv true n o s)) = Some true.
+  Proof.
+    intros Ef. destruct (Bool.eqb f true) eqn:Eft.
+    - unfold conv. rewrite Ef, Eft. destruct f; [exact Ef|discriminate].
+    - destruct (conv_effect s true n o f Ef Eft) as (_ & _ & Hc). rewrite Hc, seqb_refl.
+      destruct (smem n (group_of n s)); reflexivity.
+  Qed.
+
+  (* ... and finally the phase is replaced by its representative in [-pi, pi) (contract 3: the same
+     complex number with the radius that is stored at that moment) *)
+  Theorem std_polar_preserves_value s n o fl pw zn :
+    flags_consistent s -> groups_closed s -> cvalue cv s n = Some zn ->
+    (forall a b, read s (nr n) = Some a -> read s (ni n) = Some b -> cv true (fst o) (snd o) = cv false a b) ->
+    (forall r' p' a b, fl = Some (r', p') ->
+       read (conv true n o s) (nr n) = Some a -> read (conv true n o s) (ni n) = Some b ->
+       cv true r' p' = cv true a b) ->
+    (forall a b, read (std_polar_mid n o fl s) (nr n) = Some a -> read (std_polar_mid n o fl s) (ni n) = Some b ->
+       cv true a pw = cv true a b) ->
+    forall m z, cvalue cv s m = Some z -> cvalue cv (std_polar n o fl pw s) m = Some z.
+  Proof.
+    intros FC GC Hn H1 H2 H3 m z Hm. unfold std_polar.
+    pose proof (std_polar_mid_preserves_value s n o fl zn FC GC Hn H1 H2) as P2.
+    set (s2 := std_polar_mid n o fl s) in *.
+    assert (X : vars s2 = vars (conv true n o s) /\ cplx s2 = cplx (conv true n o s) /\ same s2 = same (conv true n o s)).
+    { unfold s2, std_polar_mid. destruct fl as [[r' p']|]; [|repeat split].
+      destruct (write_ext (nr n) r' (conv true n o s)) as (A1 & A2 & A3).
+      destruct (write_ext (ni n) p' (write (nr n) r' (conv true n o s))) as (B1 & B2 & B3).
+      repeat split; congruence. }
+    destruct X as (Xv & Xc & Xs).
+    destruct (conv_keeps_consistency s true n o FC GC) as [FC' _].
+    assert (FC2 : flags_consistent s2) by (eapply flags_consistent_ext; eauto).
+    pose proof (P2 n zn Hn) as Hn2.
+    assert (Ef2 : dget n (cplx s2) = Some true).
+    { rewrite Xc. unfold cvalue in Hn. destruct (dget n (cplx s)) as [f|] eqn:Ef; [|discriminate].
+      eapply conv_flag_true; eauto. }
+    pose proof Hn2 as Hr. unfold cvalue in Hr. rewrite Ef2 in Hr.
+    destruct (read s2 (nr n)) as [a|] eqn:Ra; [|discriminate].
+    destruct (read s2 (ni n)) as [b|] eqn:Rb; [|discriminate].
+    rewrite <- (write_same s2 (nr n) a Ra) at 1.
+    eapply (rewrite_preserves_value s2 n a pw true zn); eauto.
+    intros a' b' Ra' Rb'. rewrite Ra in Ra'. rewrite Rb in Rb'. injection Ra' as <-. injection Rb' as <-.
+    apply H3; reflexivity.
   Qed.
 End PolarAll.
 
@@ -1326,24 +1377,52 @@ Lemma tied_read_refuted :
 Proof. vm_compute. repeat split. Qed.
 
 (* the chain of complex ties made by `equal:` / Variable.sameas: a1 keeps its own free cell,
-   a0 and a2 share another cell that is no longer free *)
+   a0 and a2 share another cell that is no longer free (it received a0's value 3 when a0, which is
+   not in the free list, was taken for a fixed member) *)
 Definition f11c_history : list (op Q) :=
   [AddComplex "a0" (Some true) true 1 2; AddComplex "a1" (Some true) true 3 4; AddComplex "a2" (Some true) true 5 6;
-   SetSame ["a1"; "a0"] true; SetSame ["a2"; "a0"] true]%Q.
+   SetSame ["a1"; "a0"] true; SetSame ["a2"; "a0"] true; SetV "a1r" 9 9 false]%Q.
 Lemma tied_chain_refuted :
   same (run init f11c_history) = [["a1"; "a0"]; ["a2"; "a0"]] /\
   trainable (run init f11c_history) = ["a1r"; "a1i"] /\
-  read (run init f11c_history) "a1r" = Some 3%Q /\ read (run init f11c_history) "a0r" = Some 5%Q /\
-  read (run init f11c_history) "a2r" = Some 5%Q.
+  read (run init f11c_history) "a1r" = Some 9%Q /\ read (run init f11c_history) "a0r" = Some 3%Q /\
+  read (run init f11c_history) "a2r" = Some 3%Q.
 Proof. vm_compute. repeat split. Qed.
 
-(* outside the configuration order: freeing a tied name counts the group twice *)
-Definition unfix_after_tie : list (op Q) :=
-  [AddReal "a" 1 true true; AddReal "b" 2 true true; SetSame ["a"; "b"] false; SetFix "b" None 0 true]%Q.
-Lemma unfix_after_tie_counts_twice :
-  trainable (run init unfix_after_tie) = ["a"; "b"] /\
-  dget "a" (vars (run init unfix_after_tie)) = dget "b" (vars (run init unfix_after_tie)) /\
-  hist_ok count_safe init unfix_after_tie = false.
+(* fix / free of a tied name (a configuration applies coef_head / equal ties before fix_var / free_var).
+   With the OLD set_fix (bookkeeping by name) freeing the tied name b listed the shared object twice and
+   fixing b left the group free; set_fix as repaired handles both through the shared object. *)
+Definition tie_ab : list (op Q) :=
+  [AddReal "a" 1 true true; AddReal "b" 2 true true; SetSame ["a"; "b"] false]%Q.
+Definition unfix_after_tie : list (op Q) := tie_ab ++ [SetFix "b" None 0%Q true].
+Definition fix_after_tie : list (op Q) := tie_ab ++ [SetFix "b" (Some 5%Q) 5%Q false; SetAllList [(7%Q, 7%Q)] false].
+Lemma old_unfix_after_tie_counts_twice :
+  trainable (set_fix_old "b" None 0%Q true (run init tie_ab)) = ["a"; "b"] /\
+  dget "a" (vars (set_fix_old "b" None 0%Q true (run init tie_ab))) =
+  dget "b" (vars (set_fix_old "b" None 0%Q true (run init tie_ab))) /\
+  trainable (set_fix_old "b" (Some 5%Q) 5%Q false (run init tie_ab)) = ["a"].
+Proof. vm_compute. repeat split. Qed.
+Lemma fix_free_after_tie :
+  trainable (run init unfix_after_tie) = ["a"] /\
+  trainable (run init fix_after_tie) = [] /\
+  all_dic (run init fix_after_tie) = [("a", 5%Q); ("b", 5%Q)] /\
+  hist_ok count_safe init unfix_after_tie = true.
+Proof. vm_compute. repeat split. Qed.
+
+(* tying a free parameter to a fixed one: the group is fixed at the fixed member's value *)
+Definition tie_fixed_member : list (op Q) :=
+  [AddReal "a" (7 # 10) true true; AddReal "b" 3 true false; SetSame ["a"; "b"] false]%Q.
+Lemma tie_fixed_member_keeps_value :
+  all_dic (run init tie_fixed_member) = [("a", 3%Q); ("b", 3%Q)] /\ trainable (run init tie_fixed_member) = [].
+Proof. vm_compute. repeat split. Qed.
+
+(* tying a Cartesian parameter to a polar one: both read the shared cells as polar *)
+Definition tie_mixed_flags : list (op Q) :=
+  [AddComplex "a" (Some true) true 1 2; AddComplex "b" (Some false) true 3 4; SetSame ["a"; "b"] true]%Q.
+Lemma tie_mixed_flags_aligned :
+  cplx (run init tie_mixed_flags) = [("a", true); ("b", true)] /\
+  hist_ok tie_safe init tie_mixed_flags = true /\
+  hist_ok_inv (fun _ _ => true) polar_safe init tie_mixed_flags = true.
 Proof. vm_compute. repeat split. Qed.
 
 (* non-vacuity of flags_consistent: two tied and one free complex parameter *)
